@@ -70,9 +70,9 @@ def dep_up(e):
 def vh_rules(ctx):
     b = ctx.prog.one(H + 'verify_with_history_params')
     R = 'RF-GUARD'
-    require_guard(ctx, b, 'C07.H1', R, lambda fc: fc[0] == 'rel' and fc[1] == 'eq' and
-                  any(is_const(x, 0) and has_call(y, 'Vec::len') and access_path(arg(next(calls_in(y, 'Vec::len')), 0)) == UP
-                      for x, y in ((fc[2], fc[3]), (fc[3], fc[2]))), 'reject an empty update-proof list')
+    # `len() == 0` and `is_empty()` have one normal form (rulelib.rel)
+    require_guard(ctx, b, 'C07.H1', R, lambda fc: fc[0] == 'pred' and fc[1].endswith('::is_empty') and fc[3] is True and
+                  access_path(fc[2][0]) == UP, 'reject an empty update-proof list')
 
     def consecutive(fc):
         if fc[0] != 'rel' or fc[1] != 'ne':
@@ -104,12 +104,23 @@ def vh_rules(ctx):
         # Less arm: start must be 1
         cmpsw = variant_edges(b, lambda x: x[0] == 'call' and (short(x[2] or x[1]) or '').endswith('::cmp')
                               and has_call(x, 'Vec::len') and any(rec(a) for a in x[3]))
-        if not cmpsw or 'Less' not in _targets(cmpsw[0]):
-            ctx.ob('C07.H7', R, False, b.path, '%s:%s' % (b.file, b.line),
-                   'MostRecent(n): no three-way comparison of the number of proofs with n', key='RF-GUARD|C07.H7|dispatch')
-        else:
+        # the same decision written as a boolean branch: `len < n` (or `len != n`, given H6) selects the side
+        # on which start_version must be 1
+        fewer = decisions(b, lambda fc: fc[0] == 'rel' and (
+            (fc[1] == 'lt' and has_call(fc[2], 'Vec::len') and dep_up(fc[2]) and rec(fc[3])) or
+            (fc[1] == 'ne' and any(has_call(x, 'Vec::len') and dep_up(x) and rec(y) for x, y in ((fc[2], fc[3]), (fc[3], fc[2])))))) \
+            if not cmpsw else []
+        fewer = [d for d in fewer if d['true'] is not None and b.blk_dominates(tg['MostRecent'], d['block'])]
+        if cmpsw and 'Less' in _targets(cmpsw[0]):
             require_guard(ctx, b, 'C07.H7', R, start_ne_1, 'MostRecent(n): fewer than n proofs only if start_version == 1',
                           start=(_targets(cmpsw[0])['Less'], 0))
+        elif fewer:
+            require_guard(ctx, b, 'C07.H7', R, start_ne_1, 'MostRecent(n): fewer than n proofs only if start_version == 1',
+                          start=(fewer[0]['true'], 0))
+        else:
+            ctx.ob('C07.H7', R, False, b.path, '%s:%s' % (b.file, b.line),
+                   'MostRecent(n): no comparison of the number of proofs with n selects the fewer-than-n case',
+                   key='RF-GUARD|C07.H7|dispatch')
 
     def lens(f1, f2):
         def p(fc):
